@@ -423,6 +423,92 @@ def read_only_outputs(chk):
             chk.coverage["traces_validated_against_impl"] += 2
 
 
+def unremovable_parts_and_modes(chk):
+    """(D37) Two regressions of the repair D30, found by the review of the fix commits.  (a) A failed output holds files that
+    belong to another user (what a root container leaves behind): `cond gc` cannot remove them -- it must say so, go on
+    with the other unrecorded outputs and exit non-zero, not die with a traceback at the first one.  (b) "... and nothing
+    else": making an inaccessible output removable must not change the permissions of a directory OUTSIDE that output (the
+    package directory, cond-out itself: a shared, setgid directory lost its mode)."""
+    import subprocess
+    from common import PY, SRC
+
+    setpriv = shutil.which("setpriv")
+    if setpriv is None or os.geteuid() != 0:
+        chk.coverage["unremovable_parts_and_modes"] = "skipped: needs root and setpriv"
+        return
+    drop = "-dac_override,-dac_read_search,-fowner"
+    pre = [setpriv, "--bounding-set=" + drop, "--inh-caps=" + drop]
+    env = dict(os.environ, PYTHONPATH=SRC)
+    # (a)
+    cond = ('run_experiment(name="a", run="mkdir $COND_OUT/docker && echo x > $COND_OUT/docker/f; exit 1")\n'
+            + "".join('run_experiment(name="%s", run="echo y > $COND_OUT/g; exit 1")\n' % n for n in ("b", "c", "d"))
+            + 'run_experiment(name="keep", run="echo kept > $COND_OUT/r")\n'
+            + 'combine(name="all", deps=[":b", ":c", ":d", ":a", ":keep"])\n')
+    root = implrun.make_project({"COND": cond})
+    implrun.run_cond(["run", "//:all"], root)
+    co = os.path.join(root, "cond-out")
+    a_dirs = [d for d in os.listdir(co) if d.startswith("a.task.")]
+    others = sorted(d for d in os.listdir(co) if d.split(".")[0] in ("b", "c", "d") and ".task." in d)
+    kept = sorted(d for d in os.listdir(co) if d.startswith("keep.task."))
+    problems = []
+    if len(a_dirs) != 1 or len(others) != 3 or len(kept) != 1:
+        problems.append("harness: set-up failed (%r %r %r)" % (a_dirs, others, kept))
+    else:
+        subprocess.run(["chown", "-R", "12345:12345", os.path.join(co, a_dirs[0], "docker")], check=True)
+        real = subprocess.run(pre + [PY, "-m", "conductor", "gc", "-v"], cwd=root, env=env, capture_output=True, text=True)
+        chk.coverage["evaluations"] += 1
+        chk.count("read-only outputs", "foreign-owned part")
+        still = sorted(d for d in os.listdir(co) if d in others)
+        if "Traceback" in real.stderr:
+            problems.append("cond gc died with a traceback: %r" % real.stderr.strip().splitlines()[-1][:200])
+        if still:
+            problems.append("unrecorded outputs %s were not removed (gc stopped at the one it could not remove)" % still)
+        if real.returncode == 0 and os.path.exists(os.path.join(co, a_dirs[0])):
+            problems.append("cond gc exited 0 although %s could not be removed" % a_dirs[0])
+        if not os.path.isfile(os.path.join(co, kept[0], "r")):
+            problems.append("the recorded version %s was damaged" % kept[0])
+        obs = {"gc_exit": real.returncode, "gc_stdout": real.stdout[-300:], "gc_stderr": real.stderr[-400:]}
+        subprocess.run(["chown", "-R", "0:0", co], check=False)
+    for msg in problems:
+        chk.violation("impl-violation", "a failed output holds files of another user: %s" % msg,
+                      {"input": {"part": "unremovable-part", "cond": cond, "commands": [["run", "//:all"], "chown -R 12345 cond-out/a.task.*/docker", ["gc", "-v"]], "without_capabilities": True},
+                       "impl_observation": obs if len(a_dirs) == 1 else None, "oracle_verdict": msg}, match_key={"tree": "unremovable-part"}, size=1)
+    if not problems:
+        chk.coverage["traces_validated_against_impl"] += 1
+    # (b)
+    for where in ("package directory", "cond-out itself"):
+        files = {"pkg/COND": 'run_experiment(name="a", run="mkdir $COND_OUT/x; chmod 000 $COND_OUT; exit 1")\n'} if where == "package directory" else \
+                {"COND": 'run_experiment(name="a", run="mkdir $COND_OUT/x; chmod 000 $COND_OUT; exit 1")\n'}
+        root = implrun.make_project(files)
+        co = os.path.join(root, "cond-out")
+        outer = os.path.join(co, "pkg") if where == "package directory" else co
+        os.makedirs(outer, exist_ok=True)
+        os.chmod(co, 0o2775)
+        os.chmod(outer, 0o2775)
+        implrun.run_cond(["run", "//pkg:a" if where == "package directory" else "//:a"], root)
+        mode_before = os.stat(outer).st_mode & 0o7777
+        real = subprocess.run(pre + [PY, "-m", "conductor", "gc", "-v"], cwd=root, env=env, capture_output=True, text=True)
+        chk.coverage["evaluations"] += 1
+        chk.count("read-only outputs", "inaccessible output in a setgid " + where)
+        mode_after = os.stat(outer).st_mode & 0o7777
+        left = [d for d in os.listdir(outer) if d.startswith("a.task.")]
+        problems = []
+        if mode_before != 0o2775:
+            problems.append("harness: mode before gc is %o" % mode_before)
+        if left:
+            problems.append("the unrecorded output %s is still there (gc exit %d: %r)" % (left, real.returncode, real.stderr.strip()[-160:]))
+        if mode_after != mode_before:
+            problems.append("`cond gc` changed the mode of %s from %o to %o" % (os.path.relpath(outer, root), mode_before, mode_after))
+        subprocess.run(["chmod", "-R", "u+rwx", co], check=False)
+        for msg in problems:
+            chk.violation("impl-violation", "an inaccessible failed output inside a setgid, group-writable %s: %s" % (where, msg),
+                          {"input": {"part": "modes", "where": where, "files": files, "commands": ["chmod 2775 <dir>", ["run", "a"], ["gc", "-v"]], "without_capabilities": True},
+                           "impl_observation": {"gc_exit": real.returncode, "gc_stdout": real.stdout[-200:], "gc_stderr": real.stderr[-300:], "mode_before": "%o" % mode_before, "mode_after": "%o" % mode_after},
+                           "oracle_verdict": msg}, match_key={"tree": "modes"}, size=1)
+        if not problems:
+            chk.coverage["traces_validated_against_impl"] += 1
+
+
 def run(tier, seed, replay=None):
     chk = Check("C13", tier, seed)
     chk.build_proofs(["Model/Gc.vo", "Lib/Cmp.vo"])
@@ -436,8 +522,9 @@ def run(tier, seed, replay=None):
 
     rn = Runner(chk)
 
-    if replay is not None and replay.get("input", {}).get("part") in ("read-only-outputs", "unusual-invocations"):
+    if replay is not None and replay.get("input", {}).get("part") in ("read-only-outputs", "unusual-invocations", "unremovable-part", "modes"):
         read_only_outputs(chk)
+        unremovable_parts_and_modes(chk)
         unusual_invocations(chk)
         return chk.finish()
     if replay is not None:
@@ -487,6 +574,7 @@ def run(tier, seed, replay=None):
         "the files under cond-out belong to the invoking user (gc makes a directory accessible to its owner before retrying a failed removal; somebody else's files cannot be removed and the error is reported)",
     ]
     read_only_outputs(chk)
+    unremovable_parts_and_modes(chk)
     unusual_invocations(chk)
     probe = symlink_probe()
     chk.coverage["symlink_probe"] = probe
